@@ -150,6 +150,51 @@ func c13NumericTokens(r *Run) {
 		}
 	})
 	r.Check(lo && hi, rule, "writeStrictASCII: runs hold exactly the bytes in [0x20, 0x7F)", enc.Pos(), "c >= 0x20 && c < 0x7f", "control bytes, DEL and bytes ≥ 0x80 must leave the quoted run")
+	// … and the two branches are the right way round: the byte itself is written only where it was
+	// found printable, the 0x token only where it was not
+	{
+		facts := bndMustFacts(enc)
+		printableAt := func(b *ssa.BasicBlock) (geLo, ltHi bool) {
+			for _, f := range facts[b] {
+				bo, ok := f.Cond.(*ssa.BinOp)
+				if !ok || typeBits(bo.X.Type()) != 8 {
+					continue
+				}
+				k, isK := constInt(bo.Y)
+				if !isK {
+					continue
+				}
+				switch {
+				case k == 0x20 && ((bo.Op == token.GEQ && f.Val) || (bo.Op == token.LSS && !f.Val)):
+					geLo = true
+				case k == 0x7f && ((bo.Op == token.LSS && f.Val) || (bo.Op == token.GEQ && !f.Val)):
+					ltHi = true
+				}
+			}
+			return
+		}
+		nRaw, nTok := 0, 0
+		eachInstr(enc, func(in ssa.Instruction) {
+			c, ok := in.(*ssa.Call)
+			if !ok || calleeOf(c).Static == nil || calleeOf(c).Static.Name() != "WriteByte" {
+				return
+			}
+			a := c.Call.Args[len(c.Call.Args)-1]
+			geLo, ltHi := printableAt(c.Block())
+			if _, isIdx := a.(*ssa.Index); isIdx && !strings.Contains(render(a), "0123456789") {
+				// the byte of s itself
+				if _, isK := constInt(a); !isK {
+					nRaw++
+					r.Check(geLo && ltHi, rule, "writeStrictASCII: a byte is written raw only when it was found printable", c.Pos(), "under c ≥ 0x20 ∧ c < 0x7F", "a control byte or a byte ≥ 0x80 would be written inside a quoted run, where the parser reads runes, not bytes")
+				}
+			}
+			if k, isK := constInt(a); isK && k == 'x' {
+				nTok++
+				r.Check(!(geLo && ltHi), rule, "writeStrictASCII: the 0x token is written for the bytes that are not printable", c.Pos(), "not under c ≥ 0x20 ∧ c < 0x7F", "printable bytes are written as numeric tokens and the others raw: the branches are the wrong way round")
+			}
+		})
+		r.Check(nRaw >= 1 && nTok >= 1, rule, "writeStrictASCII writes both forms", enc.Pos(), "raw byte and 0x token", fmt.Sprintf("raw writes %d, token writes %d", nRaw, nTok))
+	}
 	// 0x, hex[c>>4], hex[c&0x0f] with hex = "0123456789ABCDEF"
 	var seq []string
 	eachInstr(enc, func(in ssa.Instruction) {
